@@ -67,17 +67,20 @@ def judge(ctx, recs, shards=None):
             raise Machinery("generator produced a record the specification places outside the domain of C11 / malformed: %s (record id %s)"
                             % (json.dumps(info)[:400], r.get("id")))
         fails.append(Failure(signature(r, info), describe(r, info), {"family": "tempo", "record": r}))
+        fails[-1].before = [x for x in recs[max(0, idx - 400):idx]]
     fails.sort(key=lambda f: len(json.dumps(f.payload)))
     return fails
 
 
-def rerun(ctx, rec):
+def rerun(ctx, rec, before=()):
     vh = ctx.build(PKG)
     d = ctx.sub("replay")
     i, o = os.path.join(d, "in.ndjson"), os.path.join(d, "out.ndjson")
-    open(i, "w").write(json.dumps(rec) + "\n")
-    ctx.run([vh, "tempo-rerun", "-in", i, "-out", o], timeout=600)
-    new = json.loads(open(o).read())
+    with open(i, "w") as fh:       # the cases `before` are executed first, in the same fresh process
+        for b in list(before) + [rec]:
+            fh.write(json.dumps(b) + "\n")
+    ctx.run([vh, "tempo-rerun", "-in", i, "-out", o], timeout=1800)
+    new = json.loads(open(o).read().splitlines()[-1])
     bad = ctx.validate("Trace_Tempo", [new], shards=1)
     if bad and bad[0][1] and bad[0][1].get("genbug"):
         raise Machinery("replayed record is outside the domain: %s" % bad[0][1])
@@ -127,11 +130,15 @@ def run(ctx):
     ctx.count(nq + ne + nt, [r["id"] for r in maps if r["feat"] and r["feat"] != ["first_at_0"]],
               [{"res": r["res"], "tempo_events": sum(1 for e in r["tracks"][r["tt"] - 1]["evs"] if e["u"] >= 0), "feat": r["feat"],
                 "first_queries": [(_num(x["t"]["d"]), _num(x["r"]["d"])) for x in r["queries"][:4]]} for r in maps[:3]])
-    ctx.report(fails, lambda f: rerun(ctx, f.payload["record"])[0])
+
+    def confirm(f):
+        return rerun(ctx, f.payload["record"])[0]
+    confirm.in_context = lambda before, f: rerun(ctx, f.payload["record"], before)[0]
+    ctx.report(fails, confirm)
 
 
 def replay(ctx, payload):
     rec = payload["payload"]["record"]
-    ok, new, info = rerun(ctx, rec)
+    ok, new, info = rerun(ctx, rec, payload["payload"].get("context") or ())
     print(describe(new, info)[:3000] if ok else json.dumps({"info": info}))
     return ok
